@@ -55,10 +55,10 @@ def estimator_configs():
     out = []
 
     def add(cls, label, make, task, kind="plain", wsize=0, only=False, partial=False, sym=False, weights=True,
-            alt=None, multi=False):
+            alt=None, multi=False, pretrained=False):
         out.append(dict(name="%s(%s)" % (cls, label), cls=cls, label=label, make=make, task=task, kind=kind,
                         wsize=wsize, onlyLab=only, partial=partial, sym=sym, weights=weights, alt=alt,
-                        multi=multi))
+                        multi=multi, pretrained=pretrained))
 
     # --- ParzenWindowClassifier: symbolic bandwidth, default, fixed
     def pwc_mean():
@@ -108,6 +108,16 @@ def estimator_configs():
         skc(lambda: LogisticRegression(warm_start=True, max_iter=3)), "clf")
     add("SklearnClassifier", "GaussianNB,cost_matrix", skc(GaussianNB, cost_matrix=[[0, 1], [2, 0]]), "clf",
         partial=True)
+
+    # wrappers around an estimator the caller has fitted already ("pretrained": partial_fit continues from it, fit
+    # starts again; the caller's estimator object is never trained by the wrapper)
+    PRE_X = np.array([[0.0, 1.0], [1.0, 0.0], [3.0, 3.5], [5.0, 1.0], [6.5, -1.0]])
+
+    def skc_pre():
+        e = GaussianNB().fit(PRE_X, np.array([0, 0, 1, 1, 0]))
+        return SklearnClassifier(e, classes=[0, 1], random_state=0), [("estimator", e)]
+
+    add("SklearnClassifier", "GaussianNB,pretrained", skc_pre, "clf", partial=True, pretrained=True)
 
     # --- SlidingWindowClassifier around those
     def swc(inner_make, wsize, only):
@@ -212,6 +222,12 @@ def estimator_configs():
     add("SklearnRegressor", "SGDRegressor(warm_start=True)",
         skr(SklearnRegressor, lambda: SGDRegressor(random_state=0, warm_start=True, max_iter=5, tol=None)), "reg",
         partial=True, sym=True)
+    def skr_pre():
+        e = SGDRegressor(random_state=0).fit(np.array([[0.0, 1.0], [1.0, 0.0], [3.0, 3.5], [5.0, 1.0]]),
+                                             np.array([1.0, -2.0, 3.0, 0.5]))
+        return SklearnRegressor(e, random_state=0), [("estimator", e)]
+
+    add("SklearnRegressor", "SGDRegressor,pretrained", skr_pre, "reg", partial=True, sym=True, pretrained=True)
     add("SklearnNormalRegressor", "GaussianProcessRegressor",
         skr(SklearnNormalRegressor, GaussianProcessRegressor), "reg", weights=False)
     add("SklearnNormalRegressor", "BayesianRidge", skr(SklearnNormalRegressor, BayesianRidge), "reg")
@@ -324,14 +340,24 @@ def _est_job(arg):
     task, n_annot = cfg["task"], (2 if cfg["multi"] else 1)
     mapd = second_annotator if cfg["multi"] else (lambda D: D)
     obj, owned = cfg["make"]()
-    proto = clone(obj)                       # the unfitted prototype, never used for anything but cloning
+    import copy as _copy
+
+    # the prototype, never used for anything but cloning (a deep copy when the wrapped estimator comes fitted)
+    proto = _copy.deepcopy(obj) if cfg.get("pretrained") else clone(obj)
     # the wrappers around scikit-learn estimators: the wrapped estimator driven directly on the labeled rows
     bare = None
     if cfg["kind"] == "plain" and cfg["cls"] in ("SklearnClassifier", "SklearnRegressor", "SklearnNormalRegressor"):
-        bare = h.Bare(dict(owned)["estimator"], task)
+        bare = h.Bare(dict(owned)["estimator"], task, pretrained=bool(cfg.get("pretrained")))
     pids0, dids0 = h.observe(obj, owned, ids)
     pnames = [k for k, _ in h.param_digests(obj)]
     events, calls, n_eval = [], [], 0
+    if cfg.get("pretrained") and tabseed % 2 == 0:
+        # a wrapper around a fitted estimator predicts before its own first fit / partial_fit (whatever that call
+        # binds must not let a later partial_fit train the caller's estimator)
+        with warnings.catch_warnings():
+            warnings.simplefilter("ignore")
+            obj.predict(h.PROBES)
+        calls.append({"call": "predict on the probe points (before the first training call)"})
     for si, step in enumerate(hist["steps"]):
         op = step["op"]
         # plain estimators: the data sets that contain sample 4 are always passed WITHOUT sample weights although
@@ -356,7 +382,7 @@ def _est_job(arg):
                 bare.step(op, X, y, w, use_w_of(D))
             n_eval += 1
             try:
-                ref = clone(proto)
+                ref = _copy.deepcopy(proto) if cfg.get("pretrained") else clone(proto)
                 for rop, rD in refcalls:
                     rX, ry, rw = tab.data(rD, task, n_annot)
                     h.train(ref, rop, rX, ry, rw, use_w_of(rD))
